@@ -281,6 +281,22 @@ def cases(tier, seed):
             fifo = list(range(n))
             yield dict(base, strat=["submit", "async", "fakepool"][ki],
                        order=fifo[::-1])
+    # one argument swept over values that are equal (and hash alike) but of
+    # different types: no grid can hold both, the sweep is refused before
+    # anything runs (or, if it is accepted, every slot has to be right)
+    for twin in ([3, 3.0], [1, True, 2], [2.0, 0, False]):
+        for st in ("seq", "shuffle", "submit"):
+            for two in (False, True):
+                yield {"special": "twin", "values": twin, "strat": st,
+                       "two": two}
+    # the swept function raises StopIteration for one combination: it reaches
+    # the caller, the sweep does not end as if it were complete
+    for n in (3, 4):
+        for at in range(n):
+            for st in ("seq", "shuffle", "submit", "async", "fakepool"):
+                for flat in (False, True):
+                    yield {"special": "stopiter", "n": n, "at": at,
+                           "strat": st, "flat": flat}
     # an argument with no values at all: nothing runs, the nesting is empty
     for zi, shp in enumerate([(0,), (2, 0), (0, 2), (1, 0, 2)]):
         for ki, (kind, split) in enumerate([("num", False), ("tuple2", True),
@@ -374,9 +390,71 @@ def reference(case, names, vals, consts):
     return nested(lambda x: x)
 
 
+def check_special(case):
+    import xyzpy as xyz
+
+    st = case["strat"]
+    kw = dict(verbosity=0)
+    if st == "shuffle":
+        kw["shuffle"] = 2
+    if case["special"] == "twin":
+        vals = case["values"]
+        f = xfn.make_fn(["a", "b"] if case["two"] else ["a"], kind="tstr",
+                        name="f01")
+        combos = {"a": list(vals)}
+        if case["two"]:
+            combos["b"] = [5, 6]
+        n = len(vals) * (2 if case["two"] else 1)
+        if st == "submit":
+            kw["executor"] = SubmitExecutor(list(range(n)))
+        key = "C01|%s|twin-values|" % st
+        with xfn.CallLog() as log:
+            try:
+                got = xyz.combo_runner(f, combos, **kw)
+            except Exception:
+                if log.calls:
+                    return fin_special(case, [(key + "ran-first", "%d calls "
+                                               "before the sweep over %r was "
+                                               "refused" % (len(log.calls),
+                                                            vals))])
+                return fin_special(case, [])
+        want = tuple(
+            tuple(xfn.expected("tstr", dict(a=a, b=b)) for b in (5, 6))
+            if case["two"] else xfn.expected("tstr", dict(a=a)) for a in vals)
+        if not cmp.leaf_equal(got, want):
+            return fin_special(case, [(key + "accepted-wrong", "a sweep over "
+                                       "%r was accepted and returned %r"
+                                       % (vals, got))])
+        return fin_special(case, [])
+    n, at = case["n"], case["at"]
+    f = xfn.make_fn(["a"], kind="num", name="f01")
+    vals = POOLS["i"][:n]
+    if st in ("submit", "async", "fakepool"):
+        kw["executor"] = {"submit": SubmitExecutor, "async": AsyncExecutor,
+                          "fakepool": FakePool}[st](list(range(n))[::-1])
+    key = "C01|%s|stopiteration|" % st
+    with xfn.FailSet({xfn.enc(dict(a=vals[at]))}, exc="StopIteration"):
+        with xfn.CallLog():
+            try:
+                got = xyz.combo_runner(f, {"a": vals}, flat=case["flat"], **kw)
+            except BaseException:
+                return fin_special(case, [])
+    return fin_special(case, [(key + "swallowed", "the function raised "
+                               "StopIteration for a=%r (value %d of %d) and "
+                               "the sweep returned %r as if complete"
+                               % (vals[at], at + 1, n, got))])
+
+
+def fin_special(case, vio):
+    return {"nontrivial": True, "outcome": "%s:%s" % (
+        case["special"], "ok" if not vio else "bad"), "violations": vio}
+
+
 def check_case(case):
     import xyzpy as xyz
 
+    if case.get("special"):
+        return check_special(case)
     f, names, vals, consts, combos = build(case)
     want = reference(case, names, vals, consts)
     pts = list(itertools.product(*vals))
